@@ -58,6 +58,13 @@ conflicting row must end up with the value of its own parameter set.  The same d
 is judged on recorded PostgreSQL / MySQL / MariaDB streams with the attribute stock, forced
 on and forced off.
 
+Execution hooks: 35% of the cases run on an engine with ``do_execute`` / ``do_executemany`` /
+``do_execute_no_params`` dialect event hooks that execute the statement themselves and return
+True for the INSERT statements a per-case policy selects (none, all, first only, all but the
+first, alternate, only multi-row pages, only single-row statements, seeded coin) and decline the
+others, plus ``before_cursor_execute(retval=True)`` handing everything back unchanged; all
+oracles stay the same (every parameter set exactly once, order).
+
 Guards: an empty parameter list is not an executemany (documented: same as no
 parameters) and is not generated.  Whether a statement is batched or downgraded to
 row-at-a-time is followed, not judged.  Conflicting upsert rows belong to C56.
@@ -79,7 +86,7 @@ META = {
     "exhaustive": {"quick": False, "thorough": False},
     "require": ["sorted_batches_permuted", "batches_permuted", "rows_checked_in_order", "fake_sorted_batches_permuted",
                 "orm_objects_checked", "orm_graph_batches_permuted", "upsert_rowbind_rows_wo_returning", "upsert_where_bind_rows",
-                "fake_upsert_deliveries", "fake_upsert_where_bind_deliveries"],
+                "fake_upsert_deliveries", "fake_upsert_where_bind_deliveries", "hook_cases_partly_handled"],
     "assumptions": ["a backend may deliver RETURNING rows of one statement in any order",
                     "fabricated PG/MariaDB/MSSQL rows follow the ordering guarantees SQLAlchemy documents relying on"],
 }
@@ -88,6 +95,97 @@ STYLES = ("autoinc", "uuid_pk", "expl_sentinel", "col_sentinel", "composite", "c
           "expl_sentinel_min")
 FORMS = ("ret", "ret", "ret", "retdef", "plain", "ups_nothing", "ups_excluded", "ups_bound", "orm_add", "orm_bulk",
          "ups_rowbind")
+
+
+class HookCtl:
+    """Engine / dialect event hooks that may take over execution: ``do_execute``,
+    ``do_executemany`` and ``do_execute_no_params`` run the statement themselves on the given
+    cursor and return True for the statements the current *policy* selects, and decline (return
+    None) for the others; ``before_cursor_execute(retval=True)`` hands statement and parameters
+    back unchanged.  The policy is switched per case, so within one executemany some
+    insertmanyvalues pages are handled by the hook and others by SQLAlchemy."""
+
+    POLICIES = ("none", "all", "first_only", "not_first", "alternate", "multi_row_only", "single_row_only", "seeded")
+
+    def __init__(self, seed):
+        import random
+
+        self.rng = random.Random(seed)
+        self.policy = "none"
+        self.n = self.case_handled = self.case_declined = 0
+
+    def start(self, policy):
+        self.policy = policy
+        self.n = self.case_handled = self.case_declined = 0
+
+    def takes(self, statement):
+        if not statement.lstrip().startswith("INSERT"):
+            return False
+        self.n += 1
+        p = self.policy
+        multi = "), (" in statement
+        take = {"none": False, "all": True, "first_only": self.n == 1, "not_first": self.n > 1,
+                "alternate": self.n % 2 == 1, "multi_row_only": multi, "single_row_only": not multi,
+                "seeded": self.rng.random() < 0.5}[p]
+        if take:
+            self.case_handled += 1
+        else:
+            self.case_declined += 1
+        return take
+
+    def attach(self, sa, engine):
+        def do_execute(cursor, statement, parameters, context):
+            if self.takes(statement):
+                cursor.execute(statement, parameters)
+                return True
+
+        def do_executemany(cursor, statement, parameters, context):
+            if self.takes(statement):
+                cursor.executemany(statement, parameters)
+                return True
+
+        def do_execute_no_params(cursor, statement, context):
+            if self.takes(statement):
+                cursor.execute(statement)
+                return True
+
+        def before_cursor_execute(conn, cursor, statement, parameters, context, executemany):
+            return statement, parameters
+
+        sa.event.listen(engine, "do_execute", do_execute)
+        sa.event.listen(engine, "do_executemany", do_executemany)
+        sa.event.listen(engine, "do_execute_no_params", do_execute_no_params)
+        sa.event.listen(engine, "before_cursor_execute", before_cursor_execute, retval=True)
+
+
+def hook_begin(ctx, eng, rng, desc):
+    """choose this case's hook policy (engines without hooks: None); returns a violation
+    reporter that marks mechanisms observed while hooks took over part of the execution"""
+    ctl = getattr(eng, "_vf_hooks", None)
+    if ctl is None:
+        return None, ctx.violation
+    ctl.start(rng.choice(HookCtl.POLICIES))
+    desc["hook_policy"] = ctl.policy
+
+    def viol(mech, summary, witness=None):
+        if ctl.case_handled and ctl.case_declined:
+            mech += "-with-partly-handled-execution-hooks"
+        elif ctl.case_handled:
+            mech += "-with-execution-hooks"
+        ctx.violation(mech, f"[hooks handled {ctl.case_handled} declined {ctl.case_declined} statements] {summary}", witness)
+
+    return ctl, viol
+
+
+def hook_end(ctx, ctl):
+    if ctl is None:
+        return
+    ctx.count("hook_statements_handled", ctl.case_handled)
+    ctx.count("hook_statements_declined", ctl.case_declined)
+    if ctl.case_handled and ctl.case_declined:
+        ctx.count("hook_cases_partly_handled")
+    ctx.seen("hook_policy", ctl.policy)
+    ctl.start("none")
 
 
 class Tok:
@@ -243,12 +341,13 @@ def run(ctx):
         md.create_all(engines[ps])
     engine_level = {}
 
-    def engine_for(ps, page, how, wo):
+    def engine_for(ps, page, how, wo, hooked=False):
         """wo: the dialect batches executemany INSERTs also when there is no RETURNING
         (``use_insertmanyvalues_wo_returning`` - stock for psycopg2 / mssql, an ordinary dialect
-        attribute that SQLAlchemy's own test suite switches on for SQLite)."""
-        key = (ps, page if how == "engine" else None, wo)
-        if key == (ps, None, False):
+        attribute that SQLAlchemy's own test suite switches on for SQLite).
+        hooked: execution event hooks (HookCtl) are registered on the engine."""
+        key = (ps, page if how == "engine" else None, wo, hooked)
+        if key == (ps, None, False, False):
             return engines[ps]
         if key not in engine_level:
             if len(engine_level) > 32:
@@ -258,6 +357,9 @@ def run(ctx):
             e = spy_engine(spy, paths[ps], ps, **kw)
             if wo:
                 e.dialect.use_insertmanyvalues_wo_returning = True
+            if hooked:
+                e._vf_hooks = HookCtl(rng.random())
+                e._vf_hooks.attach(sa, e)
             engine_level[key] = e
         return engine_level[key]
 
@@ -274,15 +376,17 @@ def run(ctx):
             n, page = choose_n_page(rng, N)
             page_how = rng.choice(["stmt", "stmt", "conn", "engine"])
             wo = rng.random() < 0.35
+            hooked = rng.random() < 0.35
             if form == "ups_rowbind":
-                rowbind_case(ctx, sa, sqlite_dialect, spy, perm, engine_for(ps, page, page_how, wo), paths[ps], T[style],
-                             style, ps, sort, n, page, page_how, wo, k, rng, warnings)
+                rowbind_case(ctx, sa, sqlite_dialect, spy, perm, engine_for(ps, page, page_how, wo, hooked), paths[ps],
+                             T[style], style, ps, sort, n, page, page_how, wo, k, rng, warnings)
             else:
-                one_case(ctx, sa, orm, sqlite_dialect, spy, perm, engine_for(ps, page, page_how, wo), paths[ps],
+                one_case(ctx, sa, orm, sqlite_dialect, spy, perm, engine_for(ps, page, page_how, wo, hooked), paths[ps],
                          T[style], classes.get(style), toks, style, ps, form, sort, n, page, page_how, k, rng,
                          warnings, wo)
             if k % 6 == 2:
-                graph_case(ctx, sa, orm, perm, engines[ps], paths[ps], graph, ps, n, page, k, rng, warnings)
+                graph_case(ctx, sa, orm, perm, engine_for(ps, page, "stmt", False, rng.random() < 0.35), paths[ps], graph,
+                           ps, n, page, k, rng, warnings)
     finally:
         spy.row_hook = None
         for e in list(engines.values()) + list(engine_level.values()):
@@ -356,6 +460,7 @@ def graph_case(ctx, sa, orm, perm, eng, path, graph, ps, n, page, k, rng, warnin
     raw.commit()
     raw.close()
     desc = {"form": "orm_graph", "ps": ps, "n": n, "page": page}
+    hooks, viol = hook_begin(ctx, eng, rng, desc)
     perm.reset_case()
     nchild = 0
     try:
@@ -394,7 +499,8 @@ def graph_case(ctx, sa, orm, perm, eng, path, graph, ps, n, page, k, rng, warnin
                 vseen = [(o.p, o.id) for o in vobjs]   # identity the session believes in
                 s.commit()
     except Exception as e:
-        ctx.violation(f"insert-raised-{type(e).__name__}", f"{desc} raised {e!r}"[:600], desc)
+        viol(f"insert-raised-{type(e).__name__}", f"{desc} raised {e!r}"[:600], desc)
+        hook_end(ctx, hooks)
         return
     raw = sqlite3.connect(path, timeout=2.0)
     try:
@@ -404,7 +510,7 @@ def graph_case(ctx, sa, orm, perm, eng, path, graph, ps, n, page, k, rng, warnin
     finally:
         raw.close()
     if sorted(vrows) != sorted(p for p, _ in vseen) or len(vrel) != vchild:
-        ctx.violation("rows-lost-or-duplicated", f"{desc}: {len(vrows)} parent rows / {len(vrel)} joined children for "
+        viol("rows-lost-or-duplicated", f"{desc}: {len(vrows)} parent rows / {len(vrel)} joined children for "
                       f"{n} / {vchild} objects", desc)
     else:
         ctx.count("orm_objects_checked", len(vseen) + len(vrel))
@@ -412,7 +518,7 @@ def graph_case(ctx, sa, orm, perm, eng, path, graph, ps, n, page, k, rng, warnin
         wrong = {p: (i, vrows[p]) for p, i in vseen if vrows[p] != i}
         badrel = [(p, cp) for p, cp in vrel if not cp.startswith(p + "/")]
         if wrong or badrel:
-            ctx.violation("orm-flushed-object-holds-other-rows-key",
+            viol("orm-flushed-object-holds-other-rows-key",
                           f"{desc}: {{payload: (object.id, row.id)}} = {dict(list(wrong.items())[:4])}; children under the "
                           f"wrong parent {badrel[:3]}; permuted batches={perm.case_permuted}",
                           {"desc": desc, "wrong": list(wrong.items())[:10], "badrel": badrel[:10]})
@@ -425,19 +531,20 @@ def graph_case(ctx, sa, orm, perm, eng, path, graph, ps, n, page, k, rng, warnin
     finally:
         raw.close()
     if counts != [n, n, n, nchild] or len(joined) != n or len(rel) != nchild:
-        ctx.violation("rows-lost-or-duplicated", f"{desc}: table counts {counts}, joins {len(joined)}/{len(rel)} "
+        viol("rows-lost-or-duplicated", f"{desc}: table counts {counts}, joins {len(joined)}/{len(rel)} "
                       f"expected {[n, n, n, nchild]}", desc)
     else:
         bad = [(p, cp) for p, cp in joined if p != cp] + [(p, cp) for p, cp in rel if not cp.startswith(p + "/")]
         ctx.count("orm_objects_checked", len(joined) + len(rel))
         ctx.count("rows_checked_in_order", len(joined) + len(rel))
         if bad:
-            ctx.violation("orm-dependent-row-got-other-rows-key", f"{desc}: the key returned for one object was given to "
+            viol("orm-dependent-row-got-other-rows-key", f"{desc}: the key returned for one object was given to "
                           f"another: {bad[:4]}; permuted batches={perm.case_permuted}", {"desc": desc, "bad": bad[:10]})
     if perm.case_permuted:
         ctx.count("sorted_batches_permuted", perm.case_permuted)
         ctx.count("orm_graph_batches_permuted", perm.case_permuted)
     ctx.case(desc, nontrivial=n >= 2)
+    hook_end(ctx, hooks)
 
 
 def make_params(style, n, prefix, rng, supply_dpy):
@@ -487,6 +594,7 @@ def rowbind_case(ctx, sa, sqlite_dialect, spy, perm, eng, path, t, style, ps, so
     ret = rng.choice(["none", "none", "returning"])
     desc = {"style": style, "ps": ps, "form": "ups_rowbind", "binds": binds, "sort": sort, "n": n, "new": n_new,
             "page": page, "how": page_how, "wo_returning": wo, "ret": ret}
+    hooks, viol = hook_begin(ctx, eng, rng, desc)
     opts = {"insertmanyvalues_page_size": page} if page_how in ("stmt", "conn") else {}
     stmt = sqlite_dialect.insert(t)
     stmt = stmt.on_conflict_do_update(
@@ -507,8 +615,9 @@ def rowbind_case(ctx, sa, sqlite_dialect, spy, perm, eng, path, t, style, ps, so
                 if ret == "returning":
                     returned = [tuple(r) for r in res.all()]
     except Exception as e:
-        ctx.violation(f"insert-raised-{type(e).__name__}", f"{desc} raised {e!r}"[:600], desc)
+        viol(f"insert-raised-{type(e).__name__}", f"{desc} raised {e!r}"[:600], desc)
         ctx.case(desc, nontrivial=False)
+        hook_end(ctx, hooks)
         return
     # every parameter set reaches the DBAPI exactly once, together with its own SET / WHERE values
     seen = {}
@@ -524,20 +633,21 @@ def rowbind_case(ctx, sa, sqlite_dialect, spy, perm, eng, path, t, style, ps, so
                 seen[p] = seen.get(p, 0) + 1
                 own = by_payload[p]
                 if "bp" in own and own["bp"] not in strings:
-                    ctx.violation("upsert-set-value-not-delivered-with-its-parameter-set",
+                    viol("upsert-set-value-not-delivered-with-its-parameter-set",
                                   f"{desc}: payload {p} was handed to the driver in a statement that carries the SET "
                                   f"values {sorted(x for x in strings if x.startswith('bp-'))[:3]} only", desc)
                 if "wp" in own and own["wp"] not in strings:
-                    ctx.violation("upsert-where-value-not-delivered-with-its-parameter-set",
+                    viol("upsert-where-value-not-delivered-with-its-parameter-set",
                                   f"{desc}: payload {p} was handed to the driver in a statement that carries the WHERE "
                                   f"values {sorted(x for x in strings if x[:3] in ('go:', 'no:'))[:3]} only", desc)
     want = [d["p"] for d in second]
     if sorted(seen) != sorted(want) or any(v != 1 for v in seen.values()):
-        ctx.violation("batch-accounting", f"{desc}: parameter sets delivered {sorted(seen.items())[:6]}", desc)
+        viol("batch-accounting", f"{desc}: parameter sets delivered {sorted(seen.items())[:6]}", desc)
     stored = {r["p"]: r for r in read_table(sa, path, t)}
     if sorted(stored) != sorted(want):
-        ctx.violation("rows-lost-or-duplicated", f"{desc}: table holds {len(stored)} rows for {len(want)} payloads", desc)
+        viol("rows-lost-or-duplicated", f"{desc}: table holds {len(stored)} rows for {len(want)} payloads", desc)
         ctx.case(desc, nontrivial=True)
+        hook_end(ctx, hooks)
         return
     old = {d["p"] for d in first}
     fresh_value = "srv" if t.c.d_srv.server_default is not None else None
@@ -560,24 +670,25 @@ def rowbind_case(ctx, sa, sqlite_dialect, spy, perm, eng, path, t, style, ps, so
         ctx.count("upsert_rowbind_rows_wo_returning", len(want))
     decision_wrong = {p for p in wrong if p in old and (stored[p]["d_srv"] == fresh_value) != (exp[p] == fresh_value)}
     if decision_wrong:
-        ctx.violation("upsert-where-per-row-bind-batched-with-first-row",
+        viol("upsert-where-per-row-bind-batched-with-first-row",
                       f"{desc}: rows updated / skipped against their own WHERE parameter "
                       f"{{payload: (stored, expected, wp)}} = "
                       f"{ {p: (stored[p]['d_srv'], exp[p], by_payload[p].get('wp')) for p in sorted(decision_wrong)[:4]} }",
                       {"desc": desc})
     elif wrong:
-        ctx.violation("upsert-set-value-from-other-parameter-set",
+        viol("upsert-set-value-from-other-parameter-set",
                       f"{desc}: {{payload: (stored, expected)}} = {dict(list(wrong.items())[:4])}",
                       {"desc": desc, "wrong": list(wrong.items())[:10]})
     elif returned is not None:
         if sorted(returned) != sorted((p, exp[p]) for p in affected):
-            ctx.violation("returning-multiset", f"{desc}: returned {returned[:5]} for affected rows {affected[:5]}", desc)
+            viol("returning-multiset", f"{desc}: returned {returned[:5]} for affected rows {affected[:5]}", desc)
         elif sort:
             ctx.count("rows_checked_in_order", len(returned))
             if [r[0] for r in returned] != affected:
-                ctx.violation("returning-row-order", f"{desc}: returned {[r[0] for r in returned][:8]} for {affected[:8]}", desc)
+                viol("returning-row-order", f"{desc}: returned {[r[0] for r in returned][:8]} for {affected[:8]}", desc)
     ctx.seen("style_form_sort", f"{style}/ups_rowbind/{ret}/{wo}")
     ctx.case(desc, nontrivial=n >= 2)
+    hook_end(ctx, hooks)
 
 
 def one_case(ctx, sa, orm, sqlite_dialect, spy, perm, eng, path, t, cls, toks, style, ps, form, sort, n, page,
@@ -593,6 +704,7 @@ def one_case(ctx, sa, orm, sqlite_dialect, spy, perm, eng, path, t, cls, toks, s
         rng.shuffle(retnames)
     desc = {"style": style, "ps": ps, "form": form, "sort": sort, "n": n, "page": page, "how": page_how,
             "ret": retnames, "dpy": supply_dpy, "wo_returning": wo}
+    hooks, viol = hook_begin(ctx, eng, rng, desc)
     if wo:
         ctx.count("cases_on_wo_returning_dialect")
     opts = {"insertmanyvalues_page_size": page} if page_how == "stmt" else {}
@@ -678,8 +790,9 @@ def one_case(ctx, sa, orm, sqlite_dialect, spy, perm, eng, path, t, cls, toks, s
             else:
                 raise AssertionError(form)
     except Exception as e:  # the statement is valid: nothing may raise
-        ctx.violation(f"insert-raised-{type(e).__name__}", f"{desc} raised {e!r}"[:600], desc)
+        viol(f"insert-raised-{type(e).__name__}", f"{desc} raised {e!r}"[:600], desc)
         ctx.case(desc, nontrivial=False)
+        hook_end(ctx, hooks)
         return
 
     # ---- (b) batch accounting at the DBAPI boundary
@@ -695,7 +808,7 @@ def one_case(ctx, sa, orm, sqlite_dialect, spy, perm, eng, path, t, cls, toks, s
     if sorted(seen) != sorted(want) or any(v != 1 for v in seen.values()):
         missing = sorted(set(want) - set(seen))
         dup = sorted(p for p, v in seen.items() if v != 1)
-        ctx.violation("batch-accounting", f"{desc}: missing from batches {missing[:5]} duplicated {dup[:5]} "
+        viol("batch-accounting", f"{desc}: missing from batches {missing[:5]} duplicated {dup[:5]} "
                       f"batch sizes {batch_rows}", {"desc": desc, "batch_rows": batch_rows})
     if form != "plain" and any(b > page for b in batch_rows):
         ctx.count("batches_over_page_size")  # counted, not judged
@@ -704,63 +817,66 @@ def one_case(ctx, sa, orm, sqlite_dialect, spy, perm, eng, path, t, cls, toks, s
     stored = read_table(sa, path, t)
     got = sorted(r["p"] for r in stored)
     if got != sorted(want):
-        ctx.violation("rows-lost-or-duplicated",
+        viol("rows-lost-or-duplicated",
                       f"{desc}: table has {len(got)} rows for {n} parameter sets; missing "
                       f"{sorted(set(want) - set(got))[:5]} extra {[p for p in got if p not in set(want)][:5]}",
                       {"desc": desc, "table": got[:40]})
         ctx.case(desc, nontrivial=False)
+        hook_end(ctx, hooks)
         return
     by_p = {r["p"]: r for r in stored}
 
     # python default: exactly once per row that omitted it (ties to C13, cheap here)
     if form in ("ret", "retdef", "plain") and not supply_dpy:
         if tok.n - calls0 != n:
-            ctx.violation("python-default-call-count", f"{desc}: default called {tok.n - calls0}x for {n} rows", desc)
+            viol("python-default-call-count", f"{desc}: default called {tok.n - calls0}x for {n} rows", desc)
 
     # ---- (c)/(d) returned rows
     def check_seq(seq, what, mech_order):
         ps_ret = [r.get("p") for r in seq]
         if sorted(ps_ret) != sorted(want):
-            ctx.violation(f"{what}-multiset", f"{desc}: {what} payloads {ps_ret[:30]} != parameters", desc)
+            viol(f"{what}-multiset", f"{desc}: {what} payloads {ps_ret[:30]} != parameters", desc)
+            hook_end(ctx, hooks)
             return
         for r in seq:
             st = by_p[r["p"]]
             for nm, v in r.items():
                 if st[nm] != v:
-                    ctx.violation(f"{what}-value-mismatch", f"{desc}: {what} {nm}={v!r} stored {st[nm]!r} "
+                    viol(f"{what}-value-mismatch", f"{desc}: {what} {nm}={v!r} stored {st[nm]!r} "
                                   f"for payload {r['p']}", desc)
+                    hook_end(ctx, hooks)
                     return
         if sorted_expected:
             ctx.count("rows_checked_in_order", len(seq))
             if ps_ret != want:
                 first = next(i for i, (a, b) in enumerate(zip(ps_ret, want)) if a != b)
-                ctx.violation(mech_order, f"{desc}: {what}[{first}] is {ps_ret[first]} expected {want[first]}; "
+                viol(mech_order, f"{desc}: {what}[{first}] is {ps_ret[first]} expected {want[first]}; "
                               f"permuted batches this case={perm.case_permuted}",
                               {"desc": desc, "got": ps_ret[:40], "want": want[:40]})
 
     if returned is not None:
         if len(returned) != n:
-            ctx.violation("returning-row-count", f"{desc}: {len(returned)} rows returned for {n} parameter sets", desc)
+            viol("returning-row-count", f"{desc}: {len(returned)} rows returned for {n} parameter sets", desc)
         else:
             check_seq(returned, "returning", "returning-row-order")
     if pk_rows is not None:
         stored_pks = [tuple(by_p[p][nm] for nm in pkcols) for p in want]
         if len(pk_rows) != n:
-            ctx.violation("inserted-pk-rows-count", f"{desc}: {len(pk_rows)} inserted_primary_key_rows for {n}", desc)
+            viol("inserted-pk-rows-count", f"{desc}: {len(pk_rows)} inserted_primary_key_rows for {n}", desc)
         elif pkcols:
             if sorted(map(repr, pk_rows)) != sorted(map(repr, stored_pks)):
-                ctx.violation("inserted-pk-rows-multiset", f"{desc}: {pk_rows[:10]} vs stored {stored_pks[:10]}", desc)
+                viol("inserted-pk-rows-multiset", f"{desc}: {pk_rows[:10]} vs stored {stored_pks[:10]}", desc)
             elif sort:
                 ctx.count("rows_checked_in_order", n)
                 if pk_rows != stored_pks:
-                    ctx.violation("inserted-pk-rows-order", f"{desc}: inserted_primary_key_rows {pk_rows[:10]} but the "
+                    viol("inserted-pk-rows-order", f"{desc}: inserted_primary_key_rows {pk_rows[:10]} but the "
                                   f"rows of the parameter sets have keys {stored_pks[:10]}", desc)
         if rd_rows is not None and sort and len(rd_rows) == n:
             for i, (r, p) in enumerate(zip(rd_rows, want)):
                 st = by_p[p]
                 bad = [nm for nm, v in r.items() if nm in st and norm(sa, t.c[nm], v) != st[nm]]
                 if bad:
-                    ctx.violation("returned-defaults-rows-order", f"{desc}: returned_defaults_rows[{i}] {r} is not "
+                    viol("returned-defaults-rows-order", f"{desc}: returned_defaults_rows[{i}] {r} is not "
                                   f"the row of parameter {i} ({st})", desc)
                     break
     if objs is not None:
@@ -768,7 +884,7 @@ def one_case(ctx, sa, orm, sqlite_dialect, spy, perm, eng, path, t, cls, toks, s
         for i, o in enumerate(objs):
             st = by_p.get(o["p"])
             if o["p"] != want[i] or st is None or any(st[nm] != o[nm] for nm in pkcols) or st["d_py"] != o["d_py"]:
-                ctx.violation("orm-object-row-mismatch", f"{desc}: object {i} has {o} but its row is {st}", desc)
+                viol("orm-object-row-mismatch", f"{desc}: object {i} has {o} but its row is {st}", desc)
                 break
 
     multi = any(b >= 2 for b in batch_rows) or len(batch_rows) >= 2
@@ -783,6 +899,7 @@ def one_case(ctx, sa, orm, sqlite_dialect, spy, perm, eng, path, t, cls, toks, s
     if k % 97 == 5:
         ctx.sample({"desc": desc, "batch_rows": batch_rows, "permuted_batches": perm.case_permuted,
                     "returned_first": (returned or pk_rows or objs or [None])[0]})
+    hook_end(ctx, hooks)
 
 
 # --------------------------------------------------------------------------------------
